@@ -35,7 +35,7 @@ theorem View.ext' {x y : View} (h1 : x.nLibs = y.nLibs) (h2 : ∀ nm, x.lib nm =
   exact ⟨h1, funext h2, h3⟩
 
 theorem cmpDef_sound {a b : CNetlist} {lA lB : Option String} {dA dB : CDef} (hd : DefHyp dA)
-    (h : cmpDef ⟨true⟩ a b lA lB dA dB = .ok ()) : defView a (some dA) dA = defView b (some dA) dB := by
+    (h : cmpDef cfgFixed a b lA lB dA dB = .ok ()) : defView a (some dA) dA = defView b (some dA) dB := by
   simp only [cmpDef, andThen_ok, check_ok, beq_iff_eq] at h
   obtain ⟨_, _, hlp, hP, hlc, hC, hli, hI, _⟩ := h
   apply DefView.ext'
@@ -61,7 +61,7 @@ theorem cmpDef_sound {a b : CNetlist} {lA lB : Option String} {dA dB : CDef} (hd
     have := (allM_ok.1 hC) x hx'.1
     simp only [hx'.2, withFound_ok] at this
     obtain ⟨y, hy, hxy⟩ := this
-    exact ⟨y, hy, cmpCable_sound hd.noAssign hd.namedI hxy⟩
+    exact ⟨y, hy, cmpCable_sound hd.noAssign hxy⟩
   · -- instances
     intro nm
     simp only [defView]
@@ -84,7 +84,7 @@ structure LibHyp (l : CLib) : Prop where
   defs : ∀ d ∈ l.defs, DefHyp d
 
 theorem cmpLib_sound {a b : CNetlist} {lA lB : CLib} (hl : LibHyp lA)
-    (h : cmpLib ⟨true⟩ a b lA lB = .ok ()) : libView a (some lA) lA = libView b (some lA) lB := by
+    (h : cmpLib cfgFixed a b lA lB = .ok ()) : libView a (some lA) lA = libView b (some lA) lB := by
   simp only [cmpLib, andThen_ok, check_ok, beq_iff_eq] at h
   obtain ⟨_, _, hlen, hD⟩ := h
   apply LibView.ext'
@@ -121,7 +121,7 @@ theorem cmpInst_none_right {a b : CNetlist} {io : Option CInst} : cmpInst a b io
   cases io <;> exact absurd h.2.2 (by simp)
 
 theorem compareWith_sound {a b : CNetlist} (ha : NetHyp a)
-    (h : compareWith ⟨true⟩ a b = .ok ()) : examined a a = examined a b := by
+    (h : compareWith cfgFixed a b = .ok ()) : examined a a = examined a b := by
   simp only [compareWith, andThen_ok, check_ok, beq_iff_eq] at h
   obtain ⟨_, _, htop, hlen, hL⟩ := h
   apply View.ext'
@@ -155,5 +155,134 @@ theorem compareWith_sound {a b : CNetlist} (ha : NetHyp a)
         simp only [hta, htb, Option.isSome_some, Bool.or_self, if_true] at htop
         simp only [Option.map_some, Option.bind_some, Option.some.injEq]
         exact cmpInst_sound (ha.topKeys t hta) htop
+
+/-! ## The same for the view restricted to the original's named elements: no `Named` hypothesis -/
+
+structure DefHypN (d : CDef) : Prop where
+  ndP : (namesOf (·.name) d.ports).Nodup
+  ndC : (namesOf (·.name) d.cables).Nodup
+  ndI : (namesOf (·.name) d.insts).Nodup
+  noAssign : ∀ i ∈ d.insts, ∀ nm, i.name = some nm → isAssign nm = false
+  keys : ∀ i ∈ d.insts, keysNodupB i.props = true
+
+theorem DefHyp.toN {d : CDef} (h : DefHyp d) : DefHypN d := ⟨h.ndP, h.ndC, h.ndI, h.noAssign, h.keys⟩
+
+theorem keyed_agree_guard {α β γ : Type} {na : α → Option String} {nb : β → Option String}
+    {la : List α} {lb : List β} {va : String → α → γ} {vb : String → β → γ}
+    (hfound : ∀ nm x, byName na nm la = some x → ∃ y, byName nb nm lb = some y ∧ va nm x = vb nm y) :
+    ∀ nm, guardBy (byName na nm la) ((byName na nm la).map (va nm))
+        = guardBy (byName na nm la) ((byName nb nm lb).map (vb nm)) := by
+  intro nm
+  cases hA : byName na nm la with
+  | none => rfl
+  | some x =>
+    obtain ⟨y, hy, hv⟩ := hfound nm x hA
+    simp [guardBy, hy, hv]
+
+theorem cmpDef_soundN {a b : CNetlist} {lA lB : Option String} {dA dB : CDef} (hd : DefHypN dA)
+    (h : cmpDef cfgFixed a b lA lB dA dB = .ok ()) : defViewN a (some dA) dA = defViewN b (some dA) dB := by
+  simp only [cmpDef, andThen_ok, check_ok, beq_iff_eq] at h
+  obtain ⟨_, _, hlp, hP, hlc, hC, hli, hI, _⟩ := h
+  apply DefView.ext'
+  · exact hlp
+  · exact hlc
+  · exact hli
+  · intro nm
+    simp only [defViewN, Option.bind_some]
+    refine keyed_agree_guard (va := fun _ => portView) (vb := fun _ => portView) ?_ nm
+    intro k x hx
+    have hx' := byName_some hx
+    have := (allM_ok.1 hP) x hx'.1
+    simp only [hx'.2, withFound_ok] at this
+    obtain ⟨y, hy, hxy⟩ := this
+    exact ⟨y, hy, cmpPort_sound hxy⟩
+  · intro nm
+    simp only [defViewN, Option.bind_some]
+    refine keyed_agree_guard (va := fun _ => cableView a dA) (vb := fun _ => cableView b dB) ?_ nm
+    intro k x hx
+    have hx' := byName_some hx
+    have := (allM_ok.1 hC) x hx'.1
+    simp only [hx'.2, withFound_ok] at this
+    obtain ⟨y, hy, hxy⟩ := this
+    exact ⟨y, hy, cmpCable_sound hd.noAssign hxy⟩
+  · intro nm
+    simp only [defViewN, Option.bind_some]
+    refine keyed_agree_guard (va := fun k => instView a (origInstProps (some dA) k))
+      (vb := fun k => instView b (origInstProps (some dA) k)) ?_ nm
+    intro k x hx
+    have hx' := byName_some hx
+    have := (allM_ok.1 hI) x hx'.1
+    simp only [hx'.2, hd.noAssign x hx'.1 k hx'.2, Bool.false_eq_true, if_false, withFound_ok] at this
+    obtain ⟨y, hy, hxy⟩ := this
+    refine ⟨y, hy, ?_⟩
+    have : origInstProps (some dA) k = x.props := by simp [origInstProps, hx]
+    rw [this]
+    exact cmpInst_sound (hd.keys x hx'.1) hxy
+
+structure LibHypN (l : CLib) : Prop where
+  nd : (namesOf (·.name) l.defs).Nodup
+  defs : ∀ d ∈ l.defs, DefHypN d
+
+theorem cmpLib_soundN {a b : CNetlist} {lA lB : CLib} (hl : LibHypN lA)
+    (h : cmpLib cfgFixed a b lA lB = .ok ()) : libViewN a (some lA) lA = libViewN b (some lA) lB := by
+  simp only [cmpLib, andThen_ok, check_ok, beq_iff_eq] at h
+  obtain ⟨_, _, hlen, hD⟩ := h
+  apply LibView.ext'
+  · exact hlen
+  · intro nm
+    simp only [libViewN]
+    cases hx : byName (·.name) nm lA.defs with
+    | none => simp [origDef, hx, guardBy]
+    | some x =>
+      have hx' := byName_some hx
+      have := (allM_ok.1 hD) x hx'.1
+      simp only [hx'.2, withFound_ok] at this
+      obtain ⟨y, hy, hxy⟩ := this
+      have hod : origDef (some lA) nm = some x := by simp [origDef, hx]
+      simp only [hod, guardBy, hx, hy, Option.map_some, Option.some.injEq]
+      exact cmpDef_soundN (hl.defs x hx'.1) hxy
+
+structure NetHypN (n : CNetlist) : Prop where
+  nd : (namesOf (·.name) n.libs).Nodup
+  libs : ∀ l ∈ n.libs, LibHypN l
+  topKeys : ∀ t, n.top = some t → keysNodupB t.props = true
+
+theorem compareWith_soundN {a b : CNetlist} (ha : NetHypN a)
+    (h : compareWith cfgFixed a b = .ok ()) : examinedN a a = examinedN a b := by
+  simp only [compareWith, andThen_ok, check_ok, beq_iff_eq] at h
+  obtain ⟨_, _, htop, hlen, hL⟩ := h
+  apply View.ext'
+  · exact hlen
+  · intro nm
+    simp only [examinedN]
+    cases hx : byName (·.name) nm a.libs with
+    | none => simp [guardBy]
+    | some x =>
+      have hx' := byName_some hx
+      have := (allM_ok.1 hL) x hx'.1
+      simp only [hx'.2, withFound_ok] at this
+      obtain ⟨y, hy, hxy⟩ := this
+      simp only [guardBy, hy, Option.map_some, Option.some.injEq]
+      exact cmpLib_soundN (ha.libs x hx'.1) hxy
+  · simp only [examinedN]
+    cases hta : a.top with
+    | none =>
+      cases htb : b.top with
+      | none => rfl
+      | some t' =>
+        simp only [hta, htb, Option.isSome_some, Option.isSome_none, Bool.or_false, if_true] at htop
+        exact absurd htop cmpInst_none_left
+    | some t =>
+      cases htb : b.top with
+      | none =>
+        simp only [hta, htb, Option.isSome_some, Option.isSome_none, Bool.or_true, if_true] at htop
+        exact absurd htop cmpInst_none_right
+      | some t' =>
+        simp only [hta, htb, Option.isSome_some, Bool.or_self, if_true] at htop
+        simp only [Option.map_some, Option.bind_some, Option.some.injEq]
+        exact cmpInst_sound (ha.topKeys t hta) htop
+
+theorem NetHyp.toN {n : CNetlist} (h : NetHyp n) : NetHypN n :=
+  ⟨h.nd, fun l hl => ⟨(h.libs l hl).nd, fun d hd => ((h.libs l hl).defs d hd).toN⟩, h.topKeys⟩
 
 end Spydr.Compare
